@@ -22,7 +22,7 @@ def geoms(tier, rnd):
             (2, 3, 8, 4, 0, 5), (1, 4, 8, 4, 1, 7), (3, 2, 8, 2, 0, 0), (2, 12, 11, 4, 0, 0),
             (2, 13, 12, 4, 1, 0), (1, 12, 11, 3, 0, 9)]:
         gs.append((bankbits, rowbits, colbits, align, rankbits, bba))
-    n = 24 if tier == "quick" else 120
+    n = 24 if tier == "quick" else 80
     while len(gs) < n:
         colbits = rnd.randint(8, 12)
         align = rnd.randint(0, 4)
@@ -51,7 +51,7 @@ def addresses(g, tier, rnd):
             base = rnd.getrandbits(pb) >> edge << edge
             for d in (-2, -1, 0, 1):
                 s.add((base + d) % (1 << pb))
-    n = 300 if tier == "quick" else 1200
+    n = 300 if tier == "quick" else 1000
     while len(s) < n:
         s.add(rnd.getrandbits(pb))
     # consecutive pairs so that the walk clause is exercised
